@@ -1366,6 +1366,12 @@ private:
           return false;
         }
       }
+      else if (static_cast<unsigned char>(_text[_pos]) < 0x20)
+      {
+        // RFC 8259 section 7: control characters must be escaped
+        _error = "Unescaped control character in string";
+        return false;
+      }
       else
       {
         str += _text[_pos];
